@@ -1,6 +1,6 @@
 (* DeriveTypeProofs.v — C22: values of derived user types read back unchanged (model DeriveType.v). *)
 From Agdb Require Import Bytes BytesProofs Utf8 Codec CodecProofs DbValue Graph DbModel Search Queries DeriveType.
-From Agdb Require Import DbFrameProofs KvProofs KvDbProofs DbValueEqProofs KvSelectProofs.
+From Agdb Require Import DbFrameProofs KvProofs KvDbProofs DbValueEqProofs KvSelectProofs DbInvProofs.
 From Coq Require Import Lia ZifyBool ZifyNat ZifyN.
 Open Scope N_scope.
 
@@ -662,3 +662,43 @@ Section SelectLink.
         reflexivity.
   Qed.
 End SelectLink.
+
+(* ------------------------------------------------------------------ insert, then select as the type: end to end on the database model *)
+Section EndToEnd.
+  Variable rv : revision.
+
+  (* insert().element(&v) with db_id = None: InsertValuesQuery { ids: [Id(0)], values: Multi([to_db_values(v)]) } creates
+     a node; select().elements::<T>().ids(id) on the new element reads the value back *)
+  Theorem insert_select_roundtrip p d element fs l :
+    DbInvProofs.Inv d ->
+    NoDup (names fs) -> svals_ok fs l = true -> (element = None \/ ~ In element_id_key (names fs)) ->
+    let kvs := to_values element fs l in
+    exists id d1,
+      exec rv d (InsertValues (Ids [QId 0]) (Multi [kvs])) = (d1, QOk (lenZ kvs) [elem d1 id []]) /\
+      graph_index (gr d1) id = true /\ kvs_get (vals d1) id = kvs /\
+      exists sel,
+        exec_select rv d1 (SelectValues (map DString (db_keys true fs)) (Ids [QId id])) = QOk 1 [elem d1 id sel] /\
+        from_element p id sel fs = Ok (norm id l).
+  Proof.
+    intros HI Hnd Hok Hel kvs.
+    destruct (DbInvProofs.insert_node_db_Inv d HI) as (_ & Hpos & Hlive & Hempty & _).
+    destruct (insert_node_db d) as [id d0] eqn:En. cbn [fst snd] in *.
+    set (d3 := insert_kvs_new d0 id kvs).
+    exists id, (commit d3).
+    assert (Hga : gr d3 = gr d0) by (apply (DbInvProofs.insert_kvs_new_ga d0 id kvs)).
+    assert (Hkv : kvs_get (vals (commit d3)) id = kvs).
+    { cbn [commit clear_undo vals]. unfold d3. rewrite insert_kvs_new_get, abs_eqb_refl, Hempty. reflexivity. }
+    assert (Hgi : graph_index (gr (commit d3)) id = true).
+    { cbn [commit clear_undo gr]. rewrite Hga. exact Hlive. }
+    split; [|split; [exact Hgi|split; [exact Hkv|]]].
+    - unfold exec, exec_in_txn. cbn [is_mutating exec_mut_step insert_values length Nat.eqb negb combine st_fold fst snd].
+      unfold insert_values_q. cbn [db_id graph_index Z.ltb Z.compare Z.eqb]. unfold insert_values_new. rewrite En.
+      fold d3. cbn [fst snd app Z.add]. reflexivity.
+    - destruct (select_roundtrip p id fs l kvs Hnd Hok) as (sel & Hs & Hf).
+      + intros n Hn. unfold kvs, to_values. fold (fields_values fs l). rewrite find_key_app.
+        destruct (find_key n (fields_values fs l)) as [v|] eqn:E; [reflexivity|].
+        destruct element as [e|]; [|reflexivity]. destruct Hel as [Hel|Hel]; [discriminate|].
+        unfold find_key. cbn [find fst]. rewrite bytes_eqb_neq; [reflexivity|]. intros E2. apply Hel. now rewrite E2.
+      + exists sel. split; [|exact Hf]. rewrite (select_is_query rv (commit d3) id (db_keys true fs) Hgi), Hkv, Hs. reflexivity.
+  Qed.
+End EndToEnd.
